@@ -8,7 +8,7 @@ import z3
 from . import builtins_spec
 from .eval_call import CallMixin
 from .eval_expr import Ctx, ExprMixin, Spec
-from .eval_stmt import StmtMixin
+from .eval_stmt import StmtMixin, ComprehensionMixin
 from .ops import Ops
 from .smt import World
 from .solve import check
@@ -24,7 +24,7 @@ class Obl:
         self.schemas, self.terms, self.skolems = schemas, terms, skolems
 
 
-class Exec(ExprMixin, CallMixin, StmtMixin):
+class Exec(ExprMixin, CallMixin, StmtMixin, ComprehensionMixin):
     BUILTIN_FUNCS = builtins_spec.BUILTIN_FUNCS
     BUILTIN_CTORS = builtins_spec.BUILTIN_CTORS
     STR_METHODS = builtins_spec.STR_METHODS
